@@ -1341,7 +1341,8 @@ def layer_b(ck):
             for form in ('cli', 'json'):
                 cases.append({'id': 'B/%s/%s/%s' % (sh, form, name), 'layer': 'B', 'text': text, 'cmds': [cmd], 'form': form,
                               'observe': True, 'family': 'single'})
-    pair_shapes = shapes if ck.thorough else ['literal', 'variable', 'shared', 'extra-files']
+    pair_shapes = ['literal', 'variable', 'files', 'shared', 'sources-kw', 'extra-files', 'in-if', 'bare-call'] if ck.thorough \
+        else ['literal', 'variable', 'shared', 'extra-files']
     pair_alpha = [n for n, _ in ALPHABET if n not in NO_PAIR] if ck.thorough else PAIR_QUICK
     for sh in pair_shapes:
         text = shape_text(sh)
@@ -1349,8 +1350,9 @@ def layer_b(ck):
             for y in pair_alpha:
                 forms = ('json', 'cli') if sh in (('literal', 'variable', 'shared') if ck.thorough else ('literal',)) else ('json',)
                 for form in forms:
+                    # the JSON form of the same pair already observes the final state through `info`
                     cases.append({'id': 'B/%s/%s/%s,%s' % (sh, form, x, y), 'layer': 'B', 'text': text, 'cmds': [alpha[x], alpha[y]],
-                                  'form': form, 'observe': True, 'family': 'pair'})
+                                  'form': form, 'observe': form == 'json', 'family': 'pair'})
     return cases
 
 
@@ -1443,7 +1445,7 @@ def main():
                    'literal class x every context; every command of a %d-command alphabet in CLI and JSON form on %d project shapes; '
                    'every ordered pair of %s commands. One evaluation = one real `meson rewrite` process whose result went through '
                    'clauses (1)-(4). distinct_nontrivial = distinct (layer, family, violation keys, file changed) outcome classes'
-                   % (ck.q(1, 3), CONTEXTS, len(ALPHABET), len(SHAPES_QUICK), ck.q('%d (4 shapes)' % len(PAIR_QUICK), 'all non-refused (all shapes)')),
+                   % (ck.q(1, 3), CONTEXTS, len(ALPHABET), len(SHAPES_QUICK), ck.q('%d (4 shapes)' % len(PAIR_QUICK), 'all non-refused (8 shapes)')),
               exhaustive=True, cases=len(cases), cases_with_findings=n_viol_cases, skipped_unspecified=total['skipped_unspecified'],
               cold_revalidated=cold_n)
 
